@@ -128,12 +128,13 @@ Fixpoint verifier_chars_ok (s : string) : bool :=
   match s with EmptyString => true | String c r => verifier_char_ok c && verifier_chars_ok r end.
 
 (* HandleTokenEndpointRequest of the PKCE handler; [cl] is the authenticated client of the token
-   request, [pcl] resolves the client of the stored PKCE record *)
+   request.  The handler only reads the session here; it is consumed in the populate phase, after the
+   authorize-code handler has exchanged the code (see [redeem]). *)
 Definition pkce_token (cfg : config) (s : state) (cl : client) (key : option nat)
            (verifier verifier_s256 : string) : state * option string :=
   match find (pkce (st s)) key, key with
   | Some pr, Some k =>
-      let s1 := set_store s (delete_pkce (st s) k) in
+      let s1 := s in
       let challenge := r_challenge pr in
       let method := r_method pr in
           match pkce_validate cfg challenge method (r_cl pr) with
@@ -229,7 +230,8 @@ Definition redeem (cfg : config) (s : state) (auth : option nat) (code : pres) (
                   (* InvalidateAuthorizeCodeSession, then the token sessions (minting touches no table) *)
                   let s2 := set_store s1 (fst (invalidate_code (st s1) k)) in
                   let (s3, minted) := grant_tokens s2 stored (can_refresh cfg (r_gscopes r) (r_cl r)) in
-                  (s3, ok_obs minted (expires_in se cfg (now s)) (r_gscopes r))
+                  (* pkce.Handler.PopulateTokenEndpointResponse: DeletePKCERequestSession *)
+                  (set_store s3 (delete_pkce (st s3) k), ok_obs minted (expires_in se cfg (now s)) (r_gscopes r))
             end
       end end
   end end.
